@@ -20,3 +20,16 @@ Section NumX.
   Definition x_lt_xx (a b : numx) : bool :=
     match a, b with Some x, Some y => ltb x y | Some _, None => true | None, _ => false end.
 End NumX.
+
+(** The mirror image: [None] is -inf (sentinels initialised with [float("-inf")]). *)
+Section NumXN.
+  Context {A : Arith}.
+  Definition numxn := option (num A).
+  (** [x > a] = [a < x], [x < a], for finite [x] *)
+  Definition xn_lt_xn (a : numxn) (x : num A) : bool := match a with Some y => ltb y x | None => true end.
+  Definition xn_lt_nx (x : num A) (a : numxn) : bool := match a with Some y => ltb x y | None => false end.
+  Definition xn_le_xn (a : numxn) (x : num A) : bool := match a with Some y => leb y x | None => true end.
+  Definition xn_le_nx (x : num A) (a : numxn) : bool := match a with Some y => leb x y | None => false end.
+  (** [x / a]: a finite value over -inf is (minus) zero *)
+  Definition xn_div (x : num A) (a : numxn) : num A := match a with Some y => div x y | None => sub (ofZ 0) (ofZ 0) end.
+End NumXN.
